@@ -127,4 +127,37 @@ structure RInv (s0 s : Sys) (q : List Msg) : Prop where
   trs : TR (rs0 s0) s.hub.sBond s.stsei.supply s.hub.reqS (mintsTo stseiA q) (burnsBy stseiA q)
   phase : Fresh s0 s q ∨ NoTrg q
 
+
+/-! ### arithmetic of the true-ratio predicate -/
+
+theorem TR.mono {r B B' S R m u : Nat} (h : TR r B S R m u) (hB : B ≤ B') : TR r B' S R m u := by
+  unfold TR at *
+  have : B * D ≤ B' * D := Nat.mul_le_mul_right _ hB
+  omega
+
+/-- a fresh rate is a true ratio of its own pool and dominates every other true ratio -/
+theorem TR.le_rate {r B S R : Nat} (h : TR r B S R 0 0) (hB : 0 < B) (hC : 0 < S + R) : r ≤ rateOf B S R := by
+  unfold TR at h
+  exact le_rateOf r B S R hB hC (by simpa using h)
+
+theorem stake_plain (m : Msg) (h : isStake m = true) : ∀ a b c d, m ≠ .wasm a b c d := by
+  intro a b c d he; subst he; simp [isStake] at h
+
+theorem flows_of_stake (t : Addr) (q : List Msg) (h : ∀ m ∈ q, isStake m = true) :
+    mintsTo t q = 0 ∧ burnsBy t q = 0 :=
+  flows_of_plain t q (fun m hm => stake_plain m (h m hm))
+
+theorem bsei_ne_stsei : bseiA ≠ stseiA := by decide
+
+/-- flows of a single token message sent by the hub -/
+theorem flows_mint (t tok : Addr) (to a : Nat) :
+    mintsTo t [tokMsg hubA tok (.mint to a)] = (if tok = t then a else 0) ∧
+    burnsBy t [tokMsg hubA tok (.mint to a)] = 0 := by
+  simp [mintsTo, burnsBy, tokMsg]
+
+theorem flows_burn (t tok : Addr) (a : Nat) :
+    mintsTo t [tokMsg hubA tok (.burn a)] = 0 ∧
+    burnsBy t [tokMsg hubA tok (.burn a)] = (if tok = t then a else 0) := by
+  simp [mintsTo, burnsBy, tokMsg]
+
 end Krp
